@@ -145,3 +145,240 @@ def _(c):
         return And(x.r == ex_int(0, n, lambda j: kmatch(h0, item(j), x.a.kind)), unchanged_lists(x))
 
     c.ensures("result <=> some child has that kind", post)
+
+
+# ------------------------------------------------------------------ sibling queries
+def sibs(h, s):
+    """(parent, length, item) of the sibling list of s."""
+    p = h._parent(s)
+    return p, h.clen(p), (lambda i: h.child(p, i))
+
+
+def same_kind(h, s):
+    return lambda y: h._kind(y) == h._kind(s)
+
+
+def last_filter(x):
+    """Ghost witnesses (emb, inv) of the most recent list filter on this path; fresh symbols
+    when the contract is used at a call site."""
+    fl = getattr(getattr(x, "p", None), "ghost", {}).get("filters") if getattr(x, "p", None) is not None else None
+    if fl:
+        return fl[-1][2], fl[-1][3]
+    return wit(x, "emb", (L.I, L.I)), wit(x, "inv", (L.I, L.I))
+
+
+NQ = "nutree.node.Node."
+
+
+@contract(NQ + "get_siblings", props=("C10", "C15"))
+def _(c):
+    c.param("self", "node").param("add_self", "true", "false")
+    c.result_tag = "lref"
+    c.modifies("llen", "litem", "lalloc")
+    c.requires("wf", lambda x: And(wf0(x), self_member(x)))
+
+    def post(x):
+        h0, h, s = x.h0, x.h, x.a.self
+        p, n, item = sibs(h0, s)
+        if z3.is_true(x.a.add_self):
+            return And(x.r == h0._children(p), unchanged_lists(x))
+        emb, inv = wit(x, "emb", (L.I, L.I)), wit(x, "inv", (L.I, L.I))
+        return And(is_filter(h, x.r, n, item, lambda y: y != s, emb, inv), fresh_list(x, x.r), unchanged_lists(x))
+
+    c.ensures("result == siblings (identity filter)", post)
+
+
+@contract(Q + "get_siblings", props=C15)
+def _(c):
+    c.param("self", "node").param("add_self", "true", "false").param("any_kind", "true", "false")
+    c.families = ("typed",)
+    c.result_tag = "lref"
+    c.modifies("llen", "litem", "lalloc")
+    c.requires("wf", lambda x: And(wf0(x), self_member(x)))
+
+    def post(x):
+        h0, h, s = x.h0, x.h, x.a.self
+        p, n, item = sibs(h0, s)
+        addself, anyk = z3.is_true(x.a.add_self), z3.is_true(x.a.any_kind)
+        if anyk and addself:
+            return And(x.r == h0._children(p), unchanged_lists(x))
+        emb, inv = wit(x, "emb", (L.I, L.I)), wit(x, "inv", (L.I, L.I))
+        if anyk:
+            phi = lambda y: y != s  # noqa: E731
+        elif addself:
+            phi = same_kind(h0, s)
+        else:
+            phi = lambda y: And(y != s, h0._kind(y) == h0._kind(s))  # noqa: E731
+        return And(is_filter(h, x.r, n, item, phi, emb, inv), fresh_list(x, x.r), unchanged_lists(x))
+
+    c.ensures("result == siblings filtered by kind", post)
+
+
+def first_last_sibling(which):
+    def post(x):
+        h0, s = x.h0, x.a.self
+        p, n, item = sibs(h0, s)
+        if z3.is_true(x.a.any_kind):
+            return x.r == item(0 if which == "first" else n - 1)
+        ok = same_kind(h0, s)
+        m = L.fresh("m", L.I)
+        pat = lambda i: h0.litem(h0._children(p), i)  # noqa: E731
+        if which == "first":
+            return Exists([m], And(0 <= m, m < n, item(m) == x.r, ok(x.r), fa_int(0, m, lambda i: Not(ok(item(i))), pat)))
+        return Exists([m], And(0 <= m, m < n, item(m) == x.r, ok(x.r), fa_int(m + 1, n, lambda i: Not(ok(item(i))), pat)))
+
+    return post
+
+
+@contract(Q + "first_sibling", props=C15)
+def _(c):
+    c.param("self", "node").param("any_kind", "true", "false")
+    c.families = ("typed",)
+    c.result_tag = "node"
+    c.pure()
+    c.requires("wf", lambda x: And(wf0(x), self_member(x)))
+    c.ensures("result == first sibling of own kind", first_last_sibling("first"))
+    c.loop(1).invariant = lambda x: fa_int(0, x.k, lambda i: x.h0._kind(x.h0.child(x.h0._parent(x.a.self), i)) != x.h0._kind(x.a.self), lambda i: x.h0.litem(x.h0._children(x.h0._parent(x.a.self)), i))
+
+
+@contract(Q + "last_sibling", props=C15)
+def _(c):
+    c.param("self", "node").param("any_kind", "true", "false")
+    c.families = ("typed",)
+    c.result_tag = "node"
+    c.pure()
+    c.requires("wf", lambda x: And(wf0(x), self_member(x)))
+    c.ensures("result == last sibling of own kind", first_last_sibling("last"))
+
+    def inv(x):
+        p = x.h0._parent(x.a.self)
+        n = x.h0.clen(p)
+        return fa_int(n - x.k, n, lambda i: x.h0._kind(x.h0.child(p, i)) != x.h0._kind(x.a.self), lambda i: x.h0.litem(x.h0._children(p), i))
+
+    c.loop(1).invariant = inv
+
+
+def neighbour(which):
+    def post(x):
+        h0, s = x.h0, x.a.self
+        p, n, item = sibs(h0, s)
+        me = h0.pos(s)
+        ok = (lambda y: z3.BoolVal(True)) if z3.is_true(x.a.any_kind) else same_kind(h0, s)
+        pat = lambda i: h0.litem(h0._children(p), i)  # noqa: E731
+        if z3.is_true(x.a.any_kind):  # plain neighbour by identity position
+            none_case = (me + 1 >= n) if which == "next" else (me <= 0)
+            if x.res.tag == "none":
+                return none_case
+            return If(x.r == NONE, none_case, And(Not(none_case), x.r == item(me + 1 if which == "next" else me - 1)))
+        if which == "next":
+            none_case = fa_int(me + 1, n, lambda i: Not(ok(item(i))), pat)
+        else:
+            none_case = fa_int(0, me, lambda i: Not(ok(item(i))), pat)
+        if x.res.tag == "none":
+            return none_case
+        m = L.fresh("m", L.I)
+        if which == "next":
+            hit = Exists([m], And(me < m, m < n, item(m) == x.r, ok(x.r), fa_int(me + 1, m, lambda i: Not(ok(item(i))), pat)))
+        else:
+            hit = Exists([m], And(0 <= m, m < me, item(m) == x.r, ok(x.r), fa_int(m + 1, me, lambda i: Not(ok(item(i))), pat)))
+        return If(x.r == NONE, none_case, hit)
+
+    return post
+
+
+@contract(Q + "next_sibling", props=C15)
+def _(c):
+    c.param("self", "node").param("any_kind", "true", "false")
+    c.families = ("typed",)
+    c.result_tag = "node?"
+    c.pure()
+    c.requires("wf", lambda x: And(wf0(x), self_member(x)))
+    c.ensures("result == nearest right sibling of own kind or None", neighbour("next"))
+
+    def inv(x):
+        h0, s = x.h0, x.a.self
+        p = h0._parent(s)
+        ok = (lambda y: z3.BoolVal(True)) if z3.is_true(x.a.any_kind) else same_kind(h0, s)
+        if z3.is_true(x.a.any_kind):
+            return And(x.v.own_idx == h0.pos(s), x.k == 0)
+        return And(x.v.own_idx == h0.pos(s), fa_int(h0.pos(s) + 1, h0.pos(s) + 1 + x.k, lambda i: Not(ok(h0.child(p, i))), lambda i: h0.litem(h0._children(p), i)))
+
+    c.loop(1).invariant = inv
+
+
+@contract(Q + "prev_sibling", props=C15)
+def _(c):
+    c.param("self", "node").param("any_kind", "true", "false")
+    c.families = ("typed",)
+    c.result_tag = "node?"
+    c.pure()
+    c.requires("wf", lambda x: And(wf0(x), self_member(x)))
+    c.ensures("result == nearest left sibling of own kind or None", neighbour("prev"))
+
+    def inv(x):
+        h0, s = x.h0, x.a.self
+        p = h0._parent(s)
+        ok = (lambda y: z3.BoolVal(True)) if z3.is_true(x.a.any_kind) else same_kind(h0, s)
+        if z3.is_true(x.a.any_kind):
+            return And(x.v.own_idx == h0.pos(s), x.k == 0)
+        return And(x.v.own_idx == h0.pos(s), fa_int(h0.pos(s) - x.k, h0.pos(s), lambda i: Not(ok(h0.child(p, i))), lambda i: h0.litem(h0._children(p), i)))
+
+    c.loop(1).invariant = inv
+
+
+@contract(Q + "get_index", props=C15)
+def _(c):
+    c.param("self", "node").param("any_kind", "true", "false")
+    c.families = ("typed",)
+    c.result_tag = "int"
+    c.modifies("llen", "litem", "lalloc")
+    c.requires("wf", lambda x: And(wf0(x), self_member(x)))
+
+    def post(x):
+        h0, s = x.h0, x.a.self
+        p, n, item = sibs(h0, s)
+        if z3.is_true(x.a.any_kind):
+            return And(x.r == h0.pos(s), unchanged_lists(x))
+        # position of self inside the kind-filtered sibling list: witnessed by the filter's embedding
+        emb, inv = last_filter(x)
+        F = L.fresh("F", L.LRef)
+        return And(unchanged_lists(x), 0 <= x.r, emb(x.r) == h0.pos(s), inv(h0.pos(s)) == x.r,
+                   fa_int(0, n, lambda k: Implies(h0._kind(item(k)) == h0._kind(s), And(0 <= inv(k), emb(inv(k)) == k)), lambda k: inv(k)),
+                   fa_int(0, x.r + 1, lambda i: And(0 <= emb(i), emb(i) <= h0.pos(s), h0._kind(item(emb(i))) == h0._kind(s), inv(emb(i)) == i), lambda i: emb(i)),
+                   )
+
+    c.ensures("result == index among the siblings of own kind", post)
+
+
+@contract(Q + "is_first_sibling", props=C15)
+def _(c):
+    c.param("self", "node").param("any_kind", "true", "false")
+    c.families = ("typed",)
+    c.result_tag = "bool"
+    c.pure()
+    c.requires("wf", lambda x: And(wf0(x), self_member(x)))
+
+    def post(x):
+        h0, s = x.h0, x.a.self
+        p, n, item = sibs(h0, s)
+        ok = (lambda y: z3.BoolVal(True)) if z3.is_true(x.a.any_kind) else same_kind(h0, s)
+        return x.r == fa_int(0, h0.pos(s), lambda i: Not(ok(item(i))), lambda i: h0.litem(h0._children(p), i))
+
+    c.ensures("result <=> no earlier sibling of own kind", post)
+
+
+@contract(Q + "is_last_sibling", props=C15)
+def _(c):
+    c.param("self", "node").param("any_kind", "true", "false")
+    c.families = ("typed",)
+    c.result_tag = "bool"
+    c.pure()
+    c.requires("wf", lambda x: And(wf0(x), self_member(x)))
+
+    def post(x):
+        h0, s = x.h0, x.a.self
+        p, n, item = sibs(h0, s)
+        ok = (lambda y: z3.BoolVal(True)) if z3.is_true(x.a.any_kind) else same_kind(h0, s)
+        return x.r == fa_int(h0.pos(s) + 1, n, lambda i: Not(ok(item(i))), lambda i: h0.litem(h0._children(p), i))
+
+    c.ensures("result <=> no later sibling of own kind", post)
